@@ -12,6 +12,9 @@ package server
 //@      (capRulesLen(ref(cm), str(ACLCap)) != 0 ==> (ref(id.Permissions) == capRulesRef(ref(cm), str(ACLCap)) && len(id.Permissions) == capRulesLen(ref(cm), str(ACLCap)))) &&
 //@      (capRulesLen(ref(cm), str(ACLCap)) == 0 ==> (capOK(ref(cm), str(aclCapHTTP)) && ref(id.Permissions) == capRulesRef(ref(cm), str(aclCapHTTP)) && len(id.Permissions) == capRulesLen(ref(cm), str(aclCapHTTP)))) }
 
+// the capability names are part of the service's external contract (policy files name them)
+//@ pin [C01,C08 capability-name] const ACLCap == "tailscale.com/cap/secrets"
+//@ pin [C01,C08 legacy-capability-name] const aclCapHTTP == "https://tailscale.com/cap/secrets"
 //@ func (*Server).getIdentity(s, r) (id, err)
 //@   requires s != nil && r != nil && s.whois != nil
 //@   ensures [C08 identity.refusals] (err != nil) ==> (len(id.Permissions) == 0 && id.Principal.Hostname == "" && id.Principal.User == "" && len(id.Principal.Tags) == 0)
@@ -188,7 +191,7 @@ package server
 
 //@ func (*Server).periodicBackup(s, ctx)
 //@   requires s != nil && dbInv(s.db) && s.backupClient != nil && ctx != nil
-//@   interference at WriteGen, doBackup writers (*db.DB).Put, (*db.DB).Activate, (*db.DB).DeleteVersion, (*db.DB).Delete linking s.db assume dbInv(s.db) && s.db.kv.path == old(s.db.kv.path)
+//@   interference at WriteGen, doBackup writers (*db.DB).Put, (*db.DB).Activate, (*db.DB).DeleteVersion, (*db.DB).Delete, (*db.DB).Get, (*db.DB).GetVersion, (*db.DB).GetConditional, (*db.DB).Info, (*db.DB).List linking s.db assume dbInv(s.db) && s.db.kv.path == old(s.db.kv.path)
 //@   ensures [C17 loop.terminates-only-on-cancel] chanFired(doneChan(ctx))
 //@   at call doBackup: assert [C17 loop.change-driven] call_WriteGen != lastWriteGen
 //@   at call doBackup: assert [C17 loop.rate] uploadAttempts == old(uploadAttempts) || clock >= lastAttemptAt + 60000000000
